@@ -714,6 +714,36 @@ BASE_LEAVES = {"integer": {"k": "integer"}, "string": {"k": "string"}, "float": 
                "string-jsonlike": {"k": "string"}}
 
 
+def _fmt_date(sv):
+    try:
+        datetime.datetime.strptime(sv, "%Y-%m-%d")
+        return True
+    except ValueError:
+        return False
+
+
+def _fmt_time(sv):
+    try:
+        datetime.datetime.strptime(sv, "%H:%M:%S")
+        return True
+    except ValueError:
+        return False
+
+
+def _fmt_ipv4(sv):
+    import re
+    return bool(re.match(r"^\d{1,3}\.\d{1,3}\.\d{1,3}\.\d{1,3}$", sv)) and all(0 <= int(c) <= 255 for c in sv.split("."))
+
+
+def _fmt_host(sv):
+    import re
+    return bool(re.match(r"^[A-Za-z0-9][A-Za-z0-9\.\-]{1,255}$", sv)) and all(len(c) <= 63 for c in sv.split("."))
+
+
+# the documented format of the formatted-string fields, stated independently of typedpy (the model's fmtOk oracle)
+FMT_KINDS = {"datestring": _fmt_date, "timestring": _fmt_time, "ipv4": _fmt_ipv4, "hostname": _fmt_host}
+
+
 def xdecl_leaf(leaf):
     from .. import dump
     if leaf == "decimal":
@@ -727,8 +757,13 @@ def xdecl_leaf(leaf):
     if leaf.startswith("enum-by-name:"):
         ecls = ENUMS[leaf.split(":")[1]]
         if issubclass(ecls, (int, str)):
-            return None     # members equal to their values: the core enumCls declaration does not carry that
+            # members equal to their values: the constructor also accepts the raw value (and keeps it)
+            return {"k": "enumName", "cls": ecls.__name__, "members": [[m.name, dump.dump_value(m.value)] for m in ecls], "mixin": True}
         return {"k": "base", "f": {"k": "enumCls", "cls": ecls.__name__, "names": [m.name for m in ecls]}}
+    if leaf in FMT_KINDS:
+        return {"k": "fmtStr", "kind": leaf, "strict": leaf != "timestring"}
+    if leaf == "email":
+        return {"k": "base", "f": {"k": "string", "pattern": EmailAddress.pattern}}
     if leaf in TEMPORAL:
         ty, fmt, ints = TEMPORAL[leaf]
         return {"k": "temporal", "ty": ty, "fmt": fmt, "ints": ints}
@@ -864,7 +899,19 @@ def xtables(case, values, docs):
                 ps.append([ty, fmt, sv, xwire(dt if ty == "datetime" else dt.date())["x"]])
             except ValueError:
                 ps.append([ty, fmt, sv, None])
-    return {"toFloat": tf, "format": fm, "parse": ps}
+    fo = [[f["leaf"], sv, bool(FMT_KINDS[f["leaf"]](sv))] for f in case["fields"] if f["leaf"] in FMT_KINDS for sv in sorted(set(strs))]
+    import re as _re
+    rt = [[EmailAddress.pattern, sv, _re.compile(EmailAddress.pattern).match(sv) is not None] for sv in sorted(set(strs))] \
+        if any(f["leaf"] == "email" for f in case["fields"]) else []
+    ds = []
+    if any(f["leaf"].startswith("decimal") for f in case["fields"]):
+        for sv in sorted(set(strs)):
+            try:
+                dv = decimal.Decimal(sv)
+                ds.append([sv, dump.q_of(dv) if dv.is_finite() else None])
+            except decimal.InvalidOperation:
+                ds.append([sv, False])
+    return {"toFloat": tf, "format": fm, "parse": ps, "fmtOk": fo, "re": rt, "decOfStr": ds}
 
 
 XOPTS = {"keepUndefined": True, "ignoreInvalidAddl": True}
